@@ -566,10 +566,56 @@ def clause_g(rep, F):
     rep.floor("handler outcomes that report an omitted node", n, 10)
 
 
+# where a node may start an indentless sequence (a block sequence at the indentation of its parent key) and whether it is in block context:
+# YAML 1.2.2 productions s-l+block-node / s-l+block-indented / ns-l-compact-sequence and 8.2.1 ("the '-' ... is perceived as indentation" only for
+# block mapping values and keys).  state family -> (block, indentless sequence allowed)
+NODE_CONTEXT = {
+    "BlockMapping": (1, 1),          # keys and values of a block mapping
+    "BlockSequence": (1, 0),         # entries of a block sequence: a '-' after node properties is the next entry, not a nested sequence
+    "IndentlessSequence": (1, 0),
+    "BlockNode": (1, 0), "DocumentContent": (1, 0),
+    "Flow": (0, 0),                  # anything inside a flow collection
+}
+
+
+def clause_h(rep, F):
+    """(g) node-context: every state's handler parses its node with the (block, indentless-sequence-allowed) flags of its context."""
+    from engine import e5
+    from . import C02
+    E = e5.E5(F)
+    table, sm = C02.dispatch_table(F)
+    PN = PARSER + "::parse_node"
+    n = 0
+    for st, d in sorted(table.items(), key=str):
+        if d is None or d[0] not in F.fns:
+            continue
+        fam = next((k for k in NODE_CONTEXT if st.startswith(k)), None)
+        got = set()
+        if d[0] == PN:
+            got.add(tuple(d[1]))
+        for o in E.outcomes(d[0], tuple(d[1])):
+            if o.get("kind") != "return":
+                continue
+            r = o["result"]
+            if r is not e5.TOP and r[0] == "tail" and r[1] == PN:
+                got.add(tuple(r[2]))
+        if not got:
+            continue
+        n += 1
+        if fam is None:
+            rep.bad("node-context", st, "state %s parses a node but belongs to no known context family" % st, site=sm.span)
+            continue
+        rep.check(got == {NODE_CONTEXT[fam]}, "node-context", st, "state %s parses its node with (block, indentless sequence allowed) = %s; its context requires %s: "
+                  "for instance an entry of an indentless sequence that has only an anchor would swallow the following entries as a nested sequence"
+                  % (st, sorted(got), NODE_CONTEXT[fam]), site=F.fns[d[0]].span)
+    rep.floor("states that parse a node", n, 12)
+
+
 def run(tier):
     rep = new_report(tier)
     F = facts.load()
     clause_g(rep, F)
+    clause_h(rep, F)
     clause_a(rep, F)
     clause_b(rep, F)
     clause_c(rep, F)
